@@ -489,7 +489,7 @@ func gnNotifStream(rng *rand.Rand, n int, tier string, out string) (*Summary, er
 	index := 0
 	for _, name := range names {
 		p := reg.Get(name)
-		tf := gnNewFile(p)
+		tf := newTreeFile(p, "gcase", "gmismatches_ord", gnRequires+" Corr.GnmiOrdCorr")
 		g := newTreeGen(rng, p)
 		var keyVals []gnKeyVal
 		var sites []gnListSite
